@@ -69,7 +69,7 @@ func init() {
 }
 
 var c03Lone = []string{"${{ github. }}", "${{ }}", "${{ 'x }}", "${{ a b }}"}
-var c03Embedded = []string{"a ${{ github. }} b", "${{ 'ok' }} ${{ 'x }}"}
+var c03Embedded = []string{"a ${{ github. }} b", "${{ 'ok' }} ${{ 'x }}", "x }} y ${{ github. }}", "{\"a\":{\"b\":1}} ${{ a b }}", "${{ 'ok' }} }} ${{ 'x }}"}
 
 // scalarLeaves lists the value leaves (mapping values and sequence elements) of a tree.
 func scalarLeaves(root *ye.Node) []*ye.Node {
@@ -113,6 +113,9 @@ func TestC03(t *testing.T) {
 				}
 				oldVal, oldStyle, oldRaw := lf.Val, lf.Style, lf.Raw
 				for fi, form := range forms {
+					if strings.HasSuffix(info.Path, ".if") && strings.Index(form, "}}") < strings.Index(form, "${{") {
+						continue // an if: condition whose text closes before it opens is evaluated as a bare expression
+					}
 					lf.Val, lf.Raw = form, ""
 					lf.Style = []ye.Style{ye.Auto, ye.Single, ye.Double}[(fi+len(lf.Path))%3]
 					msrc := ye.Emit(w.Root, lay)
